@@ -44,6 +44,7 @@ structure Ctx where
   listCid : Option Nat := none                    -- command whose items the displayed list held at the last snapshot
   transientSel : Bool := false                    -- a selection action was issued while the list still belonged to another command run
   ed : SkimModel.Editor.Ed := {}                  -- the query editor driven by the same editing events (C18's model)
+  edKnown : Bool := false                         -- the session reported its initial query / mode / histories (OUT token)
 
 def itemId (cid pos : Nat) : Nat := cid * 100000 + pos
 
@@ -307,6 +308,11 @@ def applyTok (m : Nat → Nat → Bool) (cs : Ctx × S) (tok : List String) : Ct
       let c1 := if qid.toNat? == some s.q then c else flagBad c s!"displayed-query-is-not-the-matched-one:displayed={qid},matched={s.q}"
       let c2 := if cid.toNat? == some c1.cid then c1 else flagBad c1 s!"displayed-command-is-not-the-running-one:displayed={cid},running={c1.cid}"
       (c2, s)
+  | ["CQ", v] =>
+      -- C07 at the Model's wiring: the command query in the context the Model builds for the previewer (what `{cq}` expands to)
+      -- is the command query as edited (the C18 editor model driven by the same events)
+      (if !c.edKnown || v == encStr c.ed.cmd.line then c
+       else flagBad c s!"preview-context-cmd-query-is-not-the-edited-one:got[{v}]want[{encStr c.ed.cmd.line}]", s)
   | ["PV", v, quiet] =>
       -- C20 at the Model's wiring ("once settled, the pane shows the most recent request"): with a preview pane shown, at the end
       -- of an event-loop iteration that leaves the session settled (source ended, everything matched and harvested) the most
@@ -368,7 +374,10 @@ def answer (_case impl : String) : String :=
     { fz := { before := initQ.reverse }, cmd := { before := if inter then ['0'] else [] },
       mode := if inter then .cmd else .query,
       fzH := { before := (histOf "hist").reverse }, cmdH := { before := (histOf "chist").reverse } }
-  let c0 := { c0 with cid := cid0, runCmd := [(run0, cid0)], multi := o.multi, ed := ed0 }
+  let edKnown := match (toks.find? (fun t => t.head? == some "OUT")) with
+    | some t => kvGet t "inter" != ""
+    | none => false
+  let c0 := { c0 with cid := cid0, runCmd := [(run0, cid0)], multi := o.multi, ed := ed0, edKnown := edKnown }
   let m : Nat → Nat → Bool := fun q x => hitQ c0 q x
   let s0 : S := { (initWith o q0 (srcOf c0 cid0) : S) with run := run0 }
   let r := (toks.filter (fun t => !isHeader t)).foldl (applyTok m) (c0, s0)
